@@ -1,6 +1,7 @@
 package govc
 
 import (
+	"strings"
 	"go/ast"
 	"go/token"
 	"go/types"
@@ -682,7 +683,18 @@ func (e *Exec) scanCallWrites(st *State, call *ast.CallExpr, fp *footprint, info
 			case "heap":
 				extra = append(extra, modTarget{kind: "mem", keys: ts[i].keys})
 			case "mem":
-				extra = append(extra, modTarget{kind: "heap", keys: ts[i].keys})
+				// (objects of interior types never live in the heap)
+				interior := false
+				for _, k := range ts[i].keys {
+					for tn := range interiorTypes {
+						if strings.HasPrefix(k.key, tn+".") || k.key == tn {
+							interior = true
+						}
+					}
+				}
+				if !interior {
+					extra = append(extra, modTarget{kind: "heap", keys: ts[i].keys})
+				}
 			}
 		}
 		if ts[i].elem != nil && mentionsDummy(ts[i].elem, dummies) {
